@@ -36,9 +36,11 @@ MANIFEST = dict(
           "both map shapes, nested plugin / list->composite, product config mutated between calls, plus the real `rps` list/composite entries) "
           "and TLC validates each observed run against the invariants and the model's exact observable. This is the right level: the statement "
           "is a cross product over registration shapes and call histories, which the unit tests only sample on the first product."),
-    note=("Exhaustive over the stated finite space (calls <= 3, thorough 4; one nested level, one config layout); registration-time panics of malformed "
-          "constructors (expect()) and concurrency of Registry.New are not covered. Trusted: the recording driver "
-          "(harness/cmd/vdrive/plugreg.go), TLC."),
+    note=("Exhaustive over the stated finite space (calls <= 3, thorough 4; one nested level incl. a plugin list of length 0, one config layout). "
+          "The registry as an object (PluginRegistryApi.tla): sequences of Register operations - duplicates, the same name under another type, "
+          "37 constructor type descriptors incl. variadic / pointer-vs-value receiver / malformed ones, 9 default-config arguments - with Lookup, "
+          "LookupFactory, New, NewFactory probed after every operation on a fresh real registry (2 430 cases quick, 4 158 thorough, five negative "
+          "controls). Concurrent Register is not covered. Trusted: the recording drivers (harness/cmd/vdrive/plugreg*.go), TLC."),
 )
 
 INVS = ["IsCase", "Conforms", "PConfigRight", "PNoSpuriousFailure", "PFailureReaches", "PPanicRule",
@@ -163,6 +165,122 @@ def overlapping(v, cases, d, thorough):
     return out
 
 
+import threading
+_build_lock = threading.Lock()
+
+
+def build():
+    """vlib.harness_build() is not meant to be entered by two threads at once (the second one would build again)."""
+    with _build_lock:
+        return vlib.harness_build()
+
+
+API_NEGS = ["PluginRegistryApi_neg_overwrite.cfg", "PluginRegistryApi_neg_keep.cfg", "PluginRegistryApi_neg_nonatomic.cfg",
+            "PluginRegistryApi_neg_variadic.cfg", "PluginRegistryApi_neg_ptrrecv.cfg"]
+API_INVS = ["IsCase", "TPanicRule", "TNewRule", "TNewFactoryRule", "TLookupRule", "TLookupFactoryRule", "Conforms"]
+
+
+def op_text(op):
+    """func(Conf, ...int) (T1, error) - the Go type of a constructor descriptor, for messages and signatures."""
+    c = op["c"]
+
+    def params(ins, variadic):
+        ps = list(ins)
+        if variadic and ps:
+            ps[-1] = "..." + ps[-1]
+        return ", ".join(ps)
+
+    def results(outs):
+        return "" if not outs else (" " + outs[0] if len(outs) == 1 else " (" + ", ".join(outs) + ")")
+    if not c["isfunc"]:
+        ct = "<not a func>"
+    elif c["noout"]:
+        ct = "func(%s)" % params(c["ins"], c["variadic"])
+    elif c["fact"]:
+        ct = "func(%s)%s" % (params(c["ins"], c["variadic"]),
+                             results(["func(%s)%s" % (params(c["fins"], c["fvariadic"]), results(c["fouts"]))] + c["rest"]))
+    else:
+        ct = "func(%s)%s" % (params(c["ins"], c["variadic"]), results([c["prod"]] + c["rest"]))
+    d = op["d"]
+    dt = {"none": "", "nil": " default=nil", "value": " default=<a value>", "two": " default=<two arguments>"}.get(
+        d["k"], " default=func(%s) %s" % (params(d["ins"], d["variadic"]), d["out"]))
+    return "Register(%s, %r, %s%s)" % (op["t"], op["n"], ct, dt)
+
+
+def registry_api(v, d, thorough=False):
+    """The registry as an object (PluginRegistryApi.tla): sequences of Register operations - re-registration, duplicate names,
+    malformed constructors / default-config arguments of every kind, the same name under another plugin type - and after every
+    operation every probe (Lookup, LookupFactory, New, NewFactory).  Design level + 5 negative controls; every TLC-generated
+    sequence executed on a fresh real registry; TracePluginRegistryApi decides after every operation."""
+    import threading
+    out = {"states": 0, "transitions": 0}
+    res = {}
+
+    def job(name, cfg):
+        res[name] = vlib.tlc("PluginRegistryApi", cfg, workers=2, heap="2g", deadlock=False, timeout=900)
+    sfx = "3" if thorough else ""        # thorough: sequences of three operations as well
+    ths = [threading.Thread(target=job, args=(n, n)) for n in API_NEGS + ["PluginRegistryApi_exh%s.cfg" % sfx]]
+    for t in ths:
+        t.start()
+    cases, probes, obs = (os.path.join(d, n) for n in ("api_cases.ndjson", "api_probes.ndjson", "api_obs.ndjson"))
+    g = vlib.tlc("PluginRegistryApiMC", "PluginRegistryApi_gen%s.cfg" % sfx, workers=1, heap="2g", deadlock=False, timeout=600,
+                 env={"VERIF_OUT": cases, "VERIF_OUT_PROBES": probes})
+    if g.error or g.violation or not os.path.exists(cases) or not os.path.exists(probes):
+        raise vlib.MachineryError("PluginRegistryApi case generation failed\n%s" % g.out[-3000:])
+    gen = vlib.read_ndjson(cases)
+    if len(gen) < 1000:
+        raise vlib.MachineryError("only %d registry cases generated" % len(gen))
+    b = build()
+    vlib.run_driver(b, ["plugreg", "-mode", "api", "-in", cases, "-probes", probes, "-out", obs], timeout=900)
+    rows = vlib.read_ndjson(obs)
+    if len(rows) != len(gen) or any(r_["c"] != g_ or len(r_["steps"]) != len(g_["ops"]) + 1 for r_, g_ in zip(rows, gen)):
+        raise vlib.MachineryError("plugreg -mode api answered %d of %d cases / cases altered" % (len(rows), len(gen)))
+    nstates = sum(len(r_["steps"]) for r_ in rows)
+    tr = vlib.tlc("TracePluginRegistryApi", "TracePluginRegistryApi.cfg", env={"VERIF_TRACE": obs}, cont=True, workers=8, heap="4g",
+                  deadlock=False, timeout=1500)
+    if tr.error:
+        raise vlib.MachineryError("TracePluginRegistryApi failed: %s\n%s" % (tr.kind, tr.out[-3000:]))
+    if tr.distinct != nstates + 1:
+        raise vlib.MachineryError("TracePluginRegistryApi visited %d states for %d recorded steps" % (tr.distinct, nstates))
+    seen = set()
+    for inv, st in tr.all_violations:
+        try:
+            ln, j = int(st.get("l", "0")), int(st.get("j", "0"))
+        except ValueError:
+            continue
+        if not 1 <= ln <= len(rows) or j > len(rows[ln - 1]["c"]["ops"]):
+            continue
+        ops = rows[ln - 1]["c"]["ops"]
+        step = rows[ln - 1]["steps"][j]
+        last = op_text(ops[j - 1]) if j else "<empty registry>"
+        before = "; ".join("%s -> %s" % (op_text(o), rows[ln - 1]["steps"][i + 1]["out"]) for i, o in enumerate(ops[:max(j - 1, 0)]))
+        sig = "registry-api inv=%s after=%s%s" % (inv, last, (" earlier=" + "|".join(op_text(o) for o in ops[:j - 1])) if j > 1 else "")
+        if sig in seen:
+            continue
+        seen.add(sig)
+        v.violation(sig, "after %s -> %s%s the real registry answers lookup=%s lookupf=%s new=%s newf=%s; violates %s of "
+                    "TracePluginRegistryApi" % (last, step["out"], (" (earlier: %s)" % before) if before else "",
+                                                 json.dumps(step["pr"]["lookup"]), json.dumps(step["pr"]["lookupf"]),
+                                                 json.dumps([[x["out"] + (":%d" % x["id"] if x["id"] else "") for x in r_] for r_ in step["pr"]["new"]]),
+                                                 json.dumps([[x["out"] + (":%d" % x["id"] if x["id"] else "") for x in r_] for r_ in step["pr"]["newf"]]),
+                                                 inv),
+                    replay_obj={"kind": "api", "invariant": inv, "case": rows[ln - 1]["c"], "step": j, "observed": step},
+                    replay_name="api_%d_%d_%s.json" % (ln, j, inv))
+    for t in ths:
+        t.join()
+    r = res["PluginRegistryApi_exh%s.cfg" % sfx]
+    vlib.tlc_must_pass(r, "PluginRegistryApi_exh")
+    out["states"], out["transitions"] = r.distinct, r.generated
+    for n in API_NEGS:
+        vlib.tlc_must_fail(res[n], n)
+    out.update(cases=len(rows), steps=nstates, trace_states=tr.distinct,
+               accepted_registrations=sum(1 for r_ in rows for s_ in r_["steps"][1:] if s_["out"] == "ok"),
+               rejected_registrations=sum(1 for r_ in rows for s_ in r_["steps"][1:] if s_["out"] == "panic"),
+               sample={"ops": [op_text(o) for o in rows[len(rows) // 2]["c"]["ops"]],
+                       "outcomes": [s_["out"] for s_ in rows[len(rows) // 2]["steps"][1:]]})
+    return out
+
+
 def run(tier, v):
     thorough = tier == "thorough"
     states = trans = 0
@@ -182,6 +300,15 @@ def run(tier, v):
     for t in negths:
         t.start()
     d = vlib.scratch()
+    api = {}
+
+    def api_job():
+        try:
+            api["out"] = registry_api(v, d, thorough)
+        except BaseException as ex:      # re-raised in the main thread
+            api["exc"] = ex
+    api_thread = threading.Thread(target=api_job)
+    api_thread.start()
     cases = os.path.join(d, "cases.ndjson")
     g = vlib.tlc("PluginRegistryMC", "PluginRegistry_gen%s.cfg" % sfx, workers=1, heap="2g", deadlock=False, timeout=600,
                  env={"VERIF_OUT": cases})
@@ -190,7 +317,7 @@ def run(tier, v):
     gen = vlib.read_ndjson(cases)
     if len(gen) < 1000:
         raise vlib.MachineryError("only %d cases generated" % len(gen))
-    b = vlib.harness_build()
+    b = build()
     obs = os.path.join(d, "obs.ndjson")
     vlib.run_driver(b, ["plugreg", "-in", cases, "-out", obs], timeout=900)
     rows = vlib.read_ndjson(obs)
@@ -206,6 +333,11 @@ def run(tier, v):
     conc = overlapping(v, cases, d, thorough)
     states += conc["states"]
     trans += conc["transitions"]
+    api_thread.join()
+    if "exc" in api:
+        raise api["exc"]
+    states += api["out"]["states"]
+    trans += api["out"]["transitions"]
     nontrivial = len({json.dumps(r_["obs"], sort_keys=True) + case_sig(r_["c"]) for r_ in rows})
     real = [r_ for r_ in rows if r_["c"]["reg"] == "real"]
     samples = [{"case": r_["c"], "observed": r_["obs"]} for r_ in (rows[7::1733][:4] + real[-2:])]
@@ -219,8 +351,9 @@ def run(tier, v):
         "real_registry_cases": len(real),
         "overlapping_calls": {k: conc[k] for k in ("cases", "new_cases", "calls", "races_reported", "goroutines", "rounds")},
         "trace_spec_states": tr.distinct,
-        "negative_controls": [n[len("PluginRegistry_neg_"):-4] for n in NEGS],
-        "invariants_on_observed_runs": INVS,
+        "registry_api": {k: api["out"][k] for k in ("cases", "steps", "trace_states", "accepted_registrations", "rejected_registrations", "sample")},
+        "negative_controls": [n[len("PluginRegistry_neg_"):-4] for n in NEGS] + ["api_" + n[len("PluginRegistryApi_neg_"):-4] for n in API_NEGS],
+        "invariants_on_observed_runs": INVS + ["api:" + i for i in API_INVS],
     }
     return "model_checking", cov, [
         "finite case space: calls <= %d," % (4 if thorough else 3) + " one nested plugin level, config layout {A int, B string, C text-unmarshaler, S core.Schedule}",
@@ -231,6 +364,9 @@ def run(tier, v):
 def replay(path, v):
     obj = json.load(open(path))
     d = vlib.scratch()
+    if obj.get("kind") == "api":
+        registry_api(v, d)
+        return None
     if obj.get("kind") in ("conc", "race"):
         cases = os.path.join(d, "cases.ndjson")
         g = vlib.tlc("PluginRegistryMC", "PluginRegistry_gen.cfg", workers=1, heap="2g", deadlock=False, timeout=600, env={"VERIF_OUT": cases})
